@@ -6,6 +6,8 @@ import (
 	"context"
 	"errors"
 	"fmt"
+	"io"
+	"io/fs"
 	"runtime"
 	"strings"
 	"testing"
@@ -46,6 +48,12 @@ type C07Case struct {
 	Read     []ReadFault `json:"read_faults,omitempty"`
 	CancelAt int         `json:"cancel_at"` // decision index of the cancellation event; -1 = never
 	Sched    Sched       `json:"sched"`
+	// ImportPaths non-empty: the files are served by a real
+	// protocompile.SourceResolver with these import paths and a simulated
+	// Accessor; Placement says under which import path each file lives. Fault
+	// paths are then full candidate paths ("inc1/f0.proto").
+	ImportPaths []string       `json:"import_paths,omitempty"`
+	Placement   map[string]int `json:"placement,omitempty"`
 }
 
 type injErr struct{ what string }
@@ -92,11 +100,23 @@ func (r *faultResolver) fire(f firedFault) {
 	}
 }
 
+// access is the simulated Accessor of a real SourceResolver.
+func (r *faultResolver) access(full string) (io.ReadCloser, error) {
+	res, err := r.FindFileByPath(full)
+	if err != nil {
+		if err == errNotFound {
+			return nil, fs.ErrNotExist
+		}
+		return nil, err
+	}
+	return res.Source.(io.ReadCloser), nil
+}
+
 func (r *faultResolver) FindFileByPath(path string) (protocompile.SearchResult, error) {
 	ord := r.calls[path]
 	r.calls[path]++
 	probe := inDescriptorProbe()
-	std := strings.HasPrefix(path, "google/protobuf/")
+	std := strings.Contains(path, "google/protobuf/")
 	for _, f := range r.c.Res {
 		if f.Path != path || f.Ordinal != ord {
 			continue
@@ -161,7 +181,22 @@ func genC07(t *rapid.T) C07Case {
 		Symbols: rapid.IntRange(0, 3).Draw(t, "symbols") == 0,
 	}
 	paths := wl.names()
-	if wl.DescriptorOverride == "" {
+	if rapid.IntRange(0, 3).Draw(t, "sourceResolver") == 0 {
+		n := rapid.IntRange(2, 3).Draw(t, "nImportPaths")
+		for i := 0; i < n; i++ {
+			c.ImportPaths = append(c.ImportPaths, fmt.Sprintf("inc%d", i))
+		}
+		c.Placement = map[string]int{}
+		paths = nil
+		for _, f := range wl.names() {
+			d := rapid.IntRange(0, n-1).Draw(t, "placement")
+			c.Placement[f] = d
+			for i := 0; i <= d; i++ {
+				paths = append(paths, c.ImportPaths[i]+"/"+f)
+			}
+		}
+	}
+	if wl.DescriptorOverride == "" && len(c.ImportPaths) == 0 {
 		// (With an overriding descriptor.proto a resolver error for that path is
 		// not benign: the compiler legitimately falls back to the built-in one.)
 		paths = append(paths, "google/protobuf/descriptor.proto")
@@ -213,6 +248,20 @@ func execC07(t *testing.T, c C07Case) *Verdict {
 		panic(sim.HarnessFault{Msg: fmt.Sprintf("C07 workload generator produced an invalid workload: %v", ref.err)})
 	}
 	fr := &faultResolver{src: c.WL.sources(), c: &c, calls: map[string]int{}}
+	var resolver protocompile.Resolver = fr
+	if len(c.ImportPaths) > 0 {
+		placed := map[string]string{}
+		for f, text := range fr.src {
+			if d, ok := c.Placement[f]; ok {
+				placed[c.ImportPaths[d]+"/"+f] = text
+			} else {
+				placed[c.ImportPaths[0]+"/"+f] = text // e.g. an overriding descriptor.proto
+			}
+		}
+		fr.src = placed
+		resolver = &protocompile.SourceResolver{ImportPaths: c.ImportPaths, Accessor: fr.access}
+		sim.S().Probe("resolver:source-resolver")
+	}
 	var (
 		res            compileResult
 		cancelFn       context.CancelFunc
@@ -228,7 +277,7 @@ func execC07(t *testing.T, c C07Case) *Verdict {
 			cancel()
 		}
 		comp := &protocompile.Compiler{
-			Resolver:       protocompile.WithStandardImports(fr),
+			Resolver:       protocompile.WithStandardImports(resolver),
 			MaxParallelism: c.Run.Par,
 			SourceInfoMode: protocompile.SourceInfoMode(c.SrcInfo),
 		}
